@@ -8,13 +8,15 @@ from gen import discs, flux
 from props import common
 
 LEAN_MODULE = 'Beeb.Props.C05'
+LEAN_MODULES = ['Beeb.Props.C05', 'Beeb.Props.C05b']
 LEAVES = ['crc_cycle', 'fileview_pos', 'fileview_unformatted', 'fileview_beyond']
 RULE = ('abstract discs (as C01; 10/16/18 sectors per track; 35/40/80 tracks; one or two sides) recorded as FM or MFM tracks with random legal gap/sync lengths, '
         'fill bytes and physical sector order, wrapped as HFE v1, HFE v3 (random NOP/SETINDEX/SETBITRATE/SKIPBITS placement, in-block and straddling) and HxC MFM, '
         'last track padded or not; (1) Python and Lean spec encoders compared byte for byte (tracks, v3 item streams, containers); (2) real track decoders (in-process) '
         'vs the Lean decoders on the encoded tracks; (3) every dfs command on the flux image vs the same command on the sector dump of the same disc (oracle) and '
         'vs the Lean model of dfs (correspondence). Non-trivial = a command that reads catalogue or file sectors through a flux image.')
-ASSUMPTIONS = ['the track formats (IBM 3740 FM, System 34 MFM) and container layouts (HxC HFE rev 1.1 / v3, HxC MFM) are as written in Beeb/Spec/FluxEnc.lean and tools/gen/flux.py',
+ASSUMPTIONS = ['discs are generated with the catalogue sector count of a disc formatted with their geometry (a sector dump records the track count nowhere else; dfs derives it from that count)',
+               'the track formats (IBM 3740 FM, System 34 MFM) and container layouts (HxC HFE rev 1.1 / v3, HxC MFM) are as written in Beeb/Spec/FluxEnc.lean and tools/gen/flux.py',
                'for 16-sector tracks the sector dump is not used as reference (open C04 finding); the Lean model is']
 
 CMDS = [['cat'], ['info', '*.*'], ['free'], ['space'], ['sector-map'], ['show-titles'], ['extract-files', '@out']]
@@ -141,7 +143,7 @@ def run_streams(ctx, r, quick, tmp):
     # ---- containers: Python vs Lean
     reqs, wants = [], []
     for k in range(6 if quick else 60):
-        kind = r.choice(['hfe1fm', 'hfe1mfm', 'hxc'])
+        kind = ['hfe1fm', 'hfe1mfm', 'hxc'][k % 3]
         ntr = r.choice([1, 2, 3, 40]) if not quick else r.choice([1, 2, 3])
         sides = r.choice([1, 2])
         mfm = kind != 'hfe1fm'
@@ -197,14 +199,14 @@ def parse_secs(line):
         return None
 
 
-def flux_variants(r, d, img_sides, quick):
+def flux_variants(r, d, img_sides, quick, k=0):
     """yield (name, bytes, description) flux recordings of a disc whose per-side sector dumps are img_sides"""
     tracks, spt, sides = d.tracks, d.spt, len(img_sides)
     mfm = spt != 10
     full = b''.join(img_sides)
     kinds = ['hfe1', 'hfe3'] + (['hxc'] if mfm else [])
     if quick:
-        kinds = [r.choice(kinds)]
+        kinds = [kinds[k % len(kinds)]]
     for kind in kinds:
         trs = flux.tracks_of_image(full, tracks, spt, sides, mfm, lay_for=lambda t, sd: rand_layout(r, mfm, spt))
         if kind == 'hxc':
@@ -224,12 +226,15 @@ def run_e2e(ctx, r, quick):
         two = r.chance(1, 3)
         geom = r.choice([(40, 10), (80, 10), (35, 10), (40, 18), (80, 18), (40, 16)] if not quick else [(40, 10), (40, 18), (35, 10), (40, 16)])
         variant = r.choice(['dfs', 'wdfs']) if geom[1] != 18 else r.choice(['dfs', 'wdfs', 'opus'])
-        d = discs.gen_disc(r, variant=variant, geom=geom if variant != 'opus' else None, max_files=8)
+        # the catalogue's sector count is that of a disc formatted with this geometry: a sector dump carries no other record of the
+        # track count (dfs guesses it from that count), whereas a flux image records it
+        d = discs.gen_disc(r, variant=variant, geom=geom if variant != 'opus' else None, max_files=8,
+                           total=(min(geom[0] * geom[1], 1023) if variant != 'opus' else None))
         if variant == 'opus':
             geom = (d.tracks, d.spt)
         sides_img = [d.encode(discs.filler(r))]
         if two:
-            d2 = discs.gen_disc(r, variant='dfs', geom=geom, max_files=5)
+            d2 = discs.gen_disc(r, variant='dfs', geom=geom, max_files=5, total=min(geom[0] * geom[1], 1023))
             sides_img.append(d2.encode(discs.filler(r)))
         # the reference sector dump
         if two:
@@ -248,7 +253,7 @@ def run_e2e(ctx, r, quick):
             cmds += [['cat', '2'], ['info', ':2.*.*'], ['free', '2']]
         if variant == 'opus':
             cmds += [['--drive', '0%s' % l, 'cat'] for (l, o, n, c) in d.volumes()][:3]
-        for (fname, fbytes, kind) in flux_variants(r, d, sides_img, quick):
+        for (fname, fbytes, kind) in flux_variants(r, d, sides_img, quick, k):
             for cmd in cmds:
                 pre = [a for a in cmd if isinstance(a, str) and a.startswith('--drive')]
                 if pre:
